@@ -1364,26 +1364,22 @@ func (gen *Generator) generateSyntaxQuoteHash(arg Sexp) error {
 	n := HashCountKeys(hash)
 	gen.AddInstruction(PushInstr{SexpMarker})
 	for i := 0; i < n; i++ {
-		// must reverse order here to preserve order on rebuild
-		key := hash.KeyOrder[(n-i)-1]
+		// key then value, in key order: HashizeInstr restores the
+		// order in which the elements were pushed, so that the
+		// elements of a splice keep their order too.
+		key := hash.KeyOrder[i]
 		val, err := hash.HashGet(nil, key)
 		if err != nil {
 			return err
 		}
-		// value first, since value comes second on rebuild
-		gen.AddInstruction(PushInstr{SexpMarker})
-		if err := gen.GenerateSyntaxQuote([]Sexp{val}); err != nil {
-			return err
+		for _, x := range []Sexp{key, val} {
+			gen.AddInstruction(PushInstr{SexpMarker})
+			if err := gen.GenerateSyntaxQuote([]Sexp{x}); err != nil {
+				return err
+			}
+			gen.AddInstruction(SquashInstr(0))
+			gen.AddInstruction(ExplodeInstr(0))
 		}
-		gen.AddInstruction(SquashInstr(0))
-		gen.AddInstruction(ExplodeInstr(0))
-
-		gen.AddInstruction(PushInstr{SexpMarker})
-		if err := gen.GenerateSyntaxQuote([]Sexp{key}); err != nil {
-			return err
-		}
-		gen.AddInstruction(SquashInstr(0))
-		gen.AddInstruction(ExplodeInstr(0))
 	}
 	gen.AddInstruction(HashizeInstr{
 		HashLen:  n,
